@@ -14,8 +14,8 @@ LEVEL_TEXT = ("Bounded verification by symbolic execution of the real typing cod
               "degenerate, N); and that characterize() returns an accepting candidate and raises RuntimeError exactly when no "
               "candidate accepts.  Bounded claim.")
 LEVEL_NOTE = ("Bounds: n = F+1 quick / [F, F+2] thorough; unique generic occurrence at canonical position (rotations: C02); every signature-derived kit "
-              "class; 6 user signatures (quick) / 8 user signatures x 3 enzymes (thorough). Letters over ACGT. Trusted: z3, CPython, symx models.")
-LEVEL_NOTE_EXTRA = "user parts over cutters with ambiguity codes in the site (AspBHI 5', TsoI 3'); characterize() on abstract and on concrete bases with narrower subtypes. Also: characterize with the plasmid filed at every origin; a leaf type nobody used before; a family that gains a member after its first use."
+              "class; 6 user signatures (quick) / 8 user signatures x 3 enzymes (thorough), plus 2 lower-/mixed-case signatures. Letters over ACGT. Trusted: z3, CPython, symx models.")
+LEVEL_NOTE_EXTRA = "user parts over cutters with ambiguity codes in the site (AspBHI 5', TsoI 3'); characterize() on abstract and on concrete bases with narrower subtypes. Also: characterize with the plasmid filed at every origin; a leaf type nobody used before; a family that gains a member after its first use; user signatures spelled in lower and mixed case."
 TECHNIQUE = "bounded symbolic execution of the real Python source (symx) with z3; differential obligation part class vs generic class + IUPAC oracle; replay on the real stack"
 EXPLANATION = ("the derived part pattern and the generic pattern are both executed on the same symbolic record; agreement is an "
                "assertion over all records in the bound")
@@ -233,6 +233,19 @@ def obligations(tier, seed):
                     obs.append(Ob("user part %s over %s sig=%s/%s n=%d" % (role, e, sig[0], sig[1], F + s), ob_part,
                                   dict(src="user", role=role, enzyme=e, sig=list(sig), n=F + s), samples=4,
                                   cost=(F + s) ** 3, group="user %s %s %s" % (role, e, sig)))
+    # user signatures spelled in lower or mixed case (unambiguous letters): DNA is case-insensitive, the part type must
+    # still accept exactly the records whose overhangs are those letters
+    for sig, roles in ((("ttca", "ggat"), ("module",) if tier == "quick" else ("module", "vector")),
+                       (("CCta", "TAgg"), ("vector",) if tier == "quick" else ("module", "vector"))):
+        for e in enzymes:
+            ovl = Geometry(st.enzyme(e)).ovl
+            csig = (sig[0][:ovl], sig[1][:ovl])
+            for role in roles:
+                K = user_class(st, role, e, csig)
+                F = fixed_letters(K.structure())
+                obs.append(Ob("user part %s over %s (case-spelled signature) sig=%s/%s n=%d" % (role, e, csig[0], csig[1], F + 1),
+                              ob_part, dict(src="user", role=role, enzyme=e, sig=list(csig), n=F + 1), samples=4,
+                              cost=(F + 1) ** 3, group="user %s %s %s" % (role, e, csig)))
     # cutters whose recognition site carries ambiguity codes (5' and 3' overhangs)
     for e, role in ([("AspBHI", "module"), ("TsoI", "vector")] if tier == "quick" else
                     [("AspBHI", "module"), ("AspBHI", "vector"), ("TsoI", "module"), ("TsoI", "vector"), ("LpnPI", "module"),
